@@ -561,6 +561,12 @@ static void child_main(const str &prop, const Cell &cell, const std::vector<SubC
     Ctx c; c.prop = prop; c.cellinfo = CELLINFO;
     if (prop == "C14") c.want_pattern_check = true;
     run_subcell(c, cell, subs[i]);
+    // An ASan report while the object was being built / saved / loaded means its later behaviour is undefined
+    // (and typically depends on heap layout): for every property but C07 the sub-cell is *blocked* by that
+    // memory-safety violation (reported by C07), never counted as held, and its fallout is not attributed here.
+    str taint;
+    if (prop != "C07") for (auto &r : ASAN_REPORTS) if (r.second == "build" || r.second == "save" || r.second == "load_generic" || r.second == "load_own") { taint = r.first; break; }
+    if (!taint.empty()) { c.fails.clear(); emit("K tainted_by_memory_error_in_build_or_load:" + taint); }
     for (auto &f : c.fails) emit("F " + failure_json(f));
     for (auto &r : ASAN_REPORTS) emit("A " + r.first + "\t" + r.second);
     emit(fmt("E %d %ld %ld", i, c.objects, c.transitions));
@@ -662,7 +668,10 @@ static void run_unit(const str &prop, const Scope &sc, const Cell &cell, Totals 
     int nonfatal_asan = PG->asan_n;
     if (!timed_out && PG->asan_n > 0 && asan_class_fatal(PG->asan_sig[PG->asan_n - 1])) { sig = "fatal:" + str(PG->asan_sig[PG->asan_n - 1]); nonfatal_asan--; }
     T.fatals++; T.restarts++; T.subcells++;
-    if (owns_op(prop, op)) {
+    bool tainted = false;
+    if (prop != "C07") for (int i = 0; i < nonfatal_asan; i++) { str o = PG->asan_op[i]; if (o == "build" || o == "save" || o == "load_generic" || o == "load_own") tainted = true; }
+    if (tainted) { T.blocked++; T.blocked_why[fmt("%s/%s:", KNAME[sc0.kind], src.c_str()) + "tainted_by_memory_error_in_build_or_load:" + str(PG->asan_sig[0])]++; }
+    else if (owns_op(prop, op)) {
       Ctx c; c.prop = prop; c.cellinfo = CELLINFO; c.set_cell(sc0.kind, sc0.p, cell.S); c.src = src;
       c.fail(op, sig, how + " during " + op + " (source " + src + ")", unhex(PG->arg));
       add_failure(T, c.fails[0]);
@@ -727,7 +736,10 @@ int main(int argc, char **argv) {
       str how = to ? "timeout" : (WIFSIGNALED(st) ? fmt("fatal:signal%d", WTERMSIG(st)) : fmt("fatal:exit%d", WEXITSTATUS(st)));
       str sig = how; int nonfatal_asan = PG->asan_n;
       if (!to && PG->asan_n > 0 && asan_class_fatal(PG->asan_sig[PG->asan_n - 1])) { sig = "fatal:" + str(PG->asan_sig[PG->asan_n - 1]); nonfatal_asan--; }
-      printf("X {\"op\":\"%s\",\"src\":\"%s\",\"sig\":\"%s\",\"arg\":\"%s\",\"owned\":%d}\n", PG->op, PG->src, jesc(sig).c_str(), PG->arg, owns_op(prop, PG->op) ? 1 : 0);
+      bool tainted = false;
+      if (prop != "C07") for (int i = 0; i < nonfatal_asan; i++) { str o = PG->asan_op[i]; if (o == "build" || o == "save" || o == "load_generic" || o == "load_own") tainted = true; }
+      if (tainted) printf("K tainted\n");
+      else printf("X {\"op\":\"%s\",\"src\":\"%s\",\"sig\":\"%s\",\"arg\":\"%s\",\"owned\":%d}\n", PG->op, PG->src, jesc(sig).c_str(), PG->arg, owns_op(prop, PG->op) ? 1 : 0);
       for (int i = 0; i < nonfatal_asan; i++) printf("A %s\t%s\n", PG->asan_sig[i], PG->asan_op[i]);
     }
     return 0;
